@@ -116,10 +116,13 @@ def gen_value(r, depth=0) -> str:
                 items.append(r.choice(['"k"', "key", "'a b'", "k|upper"]) + r.choice([": ", ":", " : "]) + gen_value(r, depth + 1))
         return "{" + ", ".join(items) + r.choice(["", ","]) + "}"
     if k < 0.5:
-        return r.choice(['"a b"', "'x'", '"it\'s"', "'%}'", '"{{ v }}"', '_("t")', "_('u')", '""'])
+        lit = r.choice(['"a b"', "'x'", '"it\'s"', "'%}'", '"{{ v }}"', '_("t")', "_('u')", '""'])
+        if r.random() < 0.25:      # a literal head with a filter chain (translated filter arguments included)
+            lit += "|" + r.choice(["upper", "default", "add"]) + (":" + r.choice(['"z"', '_("tr")', "w"]) if r.random() < 0.6 else "")
+        return lit
     base = r.choice(["v", "a.b", "1", "2.5", "True", "None", "x_1"])
     for _ in range(r.choice([0, 0, 1, 2])):
-        base += r.choice(["|", " | "]) + r.choice(["upper", "default", "add"]) + (r.choice([":", " : "]) + r.choice(['"z"', "1", "w"]) if r.random() < 0.5 else "")
+        base += r.choice(["|", " | "]) + r.choice(["upper", "default", "add"]) + (r.choice([":", " : "]) + r.choice(['"z"', "1", "w", '_("tr")', "_('q r')"]) if r.random() < 0.5 else "")
     return base
 
 
